@@ -144,7 +144,8 @@ def run_case_guarded(mod, case, env):
                     return mod.check(case, env)
                 except RunnerCrash as rc2:
                     if rc2.kind == "timeout":
-                        return Result(nontrivial=True, labels=["hang"], violation=viol("hang|no-reply", "no reply within the command timeout, twice, for a case the model says terminates\ncase: %s" % json.dumps(case)[:1500]))
+                        extra_labels = list(getattr(mod, "hang_labels", lambda c: [])(case))
+                        return Result(nontrivial=True, labels=["hang"] + extra_labels, violation=viol("hang|no-reply", "no reply within the command timeout, twice, for a case the model says terminates\ncase: %s" % json.dumps(case)[:1500]))
                     rc = rc2
             else:
                 return Result(inconclusive=True, labels=["timeout"])
